@@ -11,6 +11,7 @@ PROPS = {}
 NOT_YET = {}
 HOOK_COMMITS = []
 import cow2lean
+import calc2lean
 
 PROPS["C16"] = {
     "module": "GstProofs.Props.C16",
@@ -203,19 +204,22 @@ HOOK_COMMITS.append("ddd932bc7")
 
 PROPS["C19"] = {
     "module": "GstProofs.Props.C19",
+    "translators": [calc2lean.calc2lean],
     "theorems": [
         "GstProofs.C19.rollback_restores", "GstProofs.C19.finish_removes_temporaries", "GstProofs.C19.rollback_inv",
         "GstProofs.C19.rollbackPermOnly_leaks", "GstProofs.Calc.deleteAll_appended",
+        "GstProofs.C19.calculators_clean_both_lists", "GstProofs.C19.calculators_register_their_variables",
+        "GstProofs.C19.calculators_table_covers",
     ],
     "harnesses": ["vh_c19"],
     "level": "proof",
-    "technique": "Lean 4 model of the calculator life cycle on top of the Db model: roll-back restoration proved for any number of created variables and any failure point (universally quantified lists), plus the negation witness for the roll-back as shipped; fault-injection correspondence on the real calculators through a guarded hook (every tick, natural failures, re-run after failure) judged on the complete observable state of both data bases",
-    "level_text": "Partial proof: restoration of columns, names, values and roles by the roll-back (both variable lists), removal of temporaries on success and preservation of the Db invariant are theorems of the model for every script length / failure index; on the library 12 calculators are run without fault, with two natural failures and with a fault injected at every hook tick, and re-run after each failure; the before/after states of both data bases are compared by the Lean driver (failure: identical content; success: input unchanged, pre-existing output content unchanged, only the Z role may move to the outputs).",
-    "level_note": "Trusted: Lean kernel + 3 standard axioms; that addColumnsByConstant appends (name de-duplication keeps the existing names) is a hypothesis of the restoration theorem (`appended`), checked on a concrete instance and by the correspondence; hook = add-only code under GSTLEARN_VERIF; calculators not in the harness list (Eden, partition, substitution, anamorphosis transforms, grid-to-grid, simuPost, global, image) are not exercised.",
-    "rule": "3 generated worlds (2-D, 1-2 variables, selection, prior extra columns with and without roles, names colliding with the calculators' output names) x 12 calculators x (no fault + 2 natural failures + every hook tick + re-run after each failure). distinct = distinct request line",
+    "technique": "Lean 4 model of the calculator life cycle + a translator: the table of the calculators of /repo (does _rollback clean both variable lists? does a member create columns without registering them?) is regenerated from the source at every run and the premises of the restoration theorem are decided on it; on top of the Db model: roll-back restoration proved for any number of created variables and any failure point (universally quantified lists), plus the negation witness for the roll-back as shipped; fault-injection correspondence on the real calculators through a guarded hook (every tick, natural failures, re-run after failure) judged on the complete observable state of both data bases",
+    "level_text": "Partial proof: restoration of columns, names, values and roles by the roll-back (both variable lists), removal of temporaries on success and preservation of the Db invariant are theorems of the model for every script length / failure index; on the library 14 calculators are run without fault, with two natural failures and with a fault injected at every hook tick, and re-run after each failure; the before/after states of both data bases are compared by the Lean driver (failure: identical content; success: input unchanged, pre-existing output content unchanged, only the Z role may move to the outputs).",
+    "level_note": "Trusted: Lean kernel + 3 standard axioms; that addColumnsByConstant appends (name de-duplication keeps the existing names) is a hypothesis of the restoration theorem (`appended`), checked on a concrete instance and by the correspondence; hook = add-only code under GSTLEARN_VERIF; calculators not in the harness list (Eden, partition, substitution, grid-to-grid, simuPost, global, image) are not exercised.",
+    "rule": "3 generated worlds (2-D, 1-2 variables, selection, prior extra columns with and without roles, names colliding with the calculators' output names) x 14 calculators x (no fault + 2 natural failures + every hook tick + re-run after each failure). distinct = distinct request line",
     "trivial": lambda line: False,
     "trusted_base": TB_COMMON + ["fault-injection hook (commit ddd932bc7, guarded by GSTLEARN_VERIF, add-only)"],
-    "uncovered": ["calculators outside the harness list", "failures inside KrigingSystem after partial writes of result columns (values of created columns are not part of the content compared on failure since the columns are removed)"],
+    "uncovered": ["calculators outside the harness list (their roll-back is covered by the regenerated table only)", "the translator reads the sources syntactically (regular expressions over member-function bodies)", "failures inside KrigingSystem after partial writes of result columns (values of created columns are not part of the content compared on failure since the columns are removed)"],
     "assumptions": [],
 }
 
